@@ -137,9 +137,10 @@ func init() {
 		ID: "C15", Level: "fault_enumeration",
 		Rule: "every effect operation (store write, message send, wallet / Lightning / watcher call) of every handler of the explored histories is a crash point; after the crash the node restarts through NewSwapService/Start/RecoverSwaps and all continuations are explored; distinct = canonical state key",
 		Families: func(tier string) []Family {
-			return mkFamilies(famOpt{chains: bothChain, roles: allRoles, backends: []bool{false},
-				flags:  scn.Flags{Blocks: true, Time: true, Restart: true, Inject: true, MaxTime: 3, MaxBlocks: 3, NoWinJump: true},
-				bounds: pick(tier, mc.Bounds{MaxDepth: 9, MaxDev: 2, Budget: 80 * time.Second}, mc.Bounds{MaxDepth: 12, MaxDev: 3, Budget: 10 * time.Minute})})
+			// CLN and lnd differ in what a re-run action meets (CLN refuses a second invoice with the same label)
+			return mkFamilies(famOpt{chains: bothChain, roles: allRoles, backends: bothBack,
+				flags:  scn.Flags{Blocks: true, Time: true, Restart: true, Inject: true, MaxTime: 2, MaxBlocks: 2, NoWinJump: true},
+				bounds: pick(tier, mc.Bounds{MaxDepth: 7, MaxDev: 2, Budget: 90 * time.Second}, mc.Bounds{MaxDepth: 11, MaxDev: 3, Budget: 12 * time.Minute})})
 		},
 		Oracles:      []scn.Oracle{oracleC15},
 		NeedOutcomes: []string{"State_ClaimedPreimage", "State_SwapCanceled"},
@@ -150,7 +151,12 @@ func init() {
 		Families: func(tier string) []Family {
 			return mkFamilies(famOpt{chains: bothChain, roles: allRoles, backends: []bool{false},
 				flags:  scn.Flags{Blocks: true, Time: true, Restart: true, Inject: true, PayPlan: true, Drop: true, MaxTime: 3, MaxBlocks: 3, NoWinJump: true},
-				bounds: pick(tier, mc.Bounds{MaxDepth: 8, MaxDev: 2, Budget: 80 * time.Second, NoCrash: true}, mc.Bounds{MaxDepth: 11, MaxDev: 2, Budget: 10 * time.Minute})})
+				bounds: pick(tier, mc.Bounds{MaxDepth: 8, MaxDev: 2, Budget: 80 * time.Second, NoCrash: true}, mc.Bounds{MaxDepth: 11, MaxDev: 2, Budget: 10 * time.Minute}),
+				tweak: func(f *Family) {
+					// failing services are where error texts (which may embed swap data) are sent to the peer
+					ch := f.Cfg.Chain
+					f.Cfg.Flags.Faults = []string{ch + ".createopening", ch + ".spend", "ln.invoice", ch + ".getblockcount"}
+				}})
 		},
 		Oracles:      []scn.Oracle{oracleC23},
 		NeedOutcomes: []string{"State_ClaimedPreimage", "State_ClaimedCoop"},
